@@ -187,6 +187,18 @@ def gen_ops(rng, sc, length, kinds):
                         T=sorted(rng.sample(range(n), rng.randint(1, min(2, n)))), args=a0,
                         restart=rng.choice(["same", "whole"]), omit_default=rng.random() < 0.5, slot=slot_))
         ops.append(dict(op="xrun", inst=0, xid=0, args=a0))
+    if "cache" in kinds and "xmk" in kinds and "fork" in kinds and setups and not ops and rng.random() < 0.2:
+        # directed: a COLD copy of the instance restarts from a file the original wrote (setup values included): what it takes
+        # from the file for a setup node IS that instance's value of the node from then on — later runs of the copy see it
+        a0 = rng.choice([(1,), (2, 3), (5, 6)])
+        ops.append(dict(op="fork", inst=0))
+        ninst += 1
+        ops.append(dict(op="cache", inst=0, mode="whole", T=[0], args=a0, restart="whole", omit_default=False, slot=0))
+        ops.append(dict(op="xmk", inst=1, T=None if rng.random() < 0.6 else sorted(rng.sample(range(n), rng.randint(1, min(3, n)))),
+                        xid=len(xobj_inst), from_slot=0))
+        xobj_inst.append(1)
+        ops.append(dict(op="xrun", inst=1, xid=len(xobj_inst) - 1, args=a0))
+        ops.append(dict(op="call", inst=1, args=rng.choice([a0, (4,)])))
     if "setupsel" in kinds and rng.random() < 0.15:
         # directed: an EMPTY selection first (it selects nothing; it is not "no selection"), on a cold instance
         ops.append(rng.choice([dict(op="setup", inst=0, T=[]), dict(op="exec", inst=0, T=[], args=(1,))]))
@@ -267,7 +279,8 @@ def gen_ops(rng, sc, length, kinds):
                             omit_required=rng.random() < 0.35, slot=rng.choice([None, 0, 0, 1]),
                             # the restarted execution may itself checkpoint — into the file it started from, or another one —
                             # and a further restart then starts from THAT file
-                            writeback=rng.choice([None, None, "same", "same", "other"])))
+                            writeback=rng.choice([None, None, "same", "same", "other"]),
+                            deps_link=(sorted(rng.sample(range(n), rng.randint(1, min(2, n)))) if rng.random() < 0.3 else None)))
     return ops
 
 
@@ -556,6 +569,39 @@ def run_history(sc, ops):
                                 os.remove(wpath)
                             except OSError:
                                 pass
+                # a link of a chain with cache_deps_of: (after the restart stages) an executor that STARTS from the file of this operation, treats T2 as its
+                # cache_deps_of targets and checkpoints into another file — what the first file holds (T2's results included,
+                # when it has them) is reused, only T2's missing results are computed, and T2 is kept out of the NEW file
+                if op.get("deps_link") and sel:
+                    T2 = sorted(op["deps_link"] if isinstance(op["deps_link"], list) else [])
+                    T2 = [t_ for t_ in T2 if t_ < n] or [sel[-1]]
+                    sel_l = anc_closure(sc, T2)
+                    fd3, lpath = tempfile.mkstemp(suffix=".pkl", prefix="twzcache")
+                    os.close(fd3)
+                    os.remove(lpath)
+                    lslot = 200000 + len(lines)
+                    beforeL = dict(COUNTS)
+                    recL = dict(op=dict(op="restart", inst=inst, sel=sel_l, cached=cached, args=list(op["args"]), mode="deps-link",
+                                        restart="link", restart_args=list(op["args"]), deps_of=T2))
+                    try:
+                        recL["out"] = attempt(lambda: d.executor(from_cache=path, cache_deps_of=ids(T2), cache_in=lpath)(*op["args"]))
+                        recL["entered"], recL["dups"] = counters_delta(beforeL, tag, n)
+                        recL["line"] = len(lines); lines.append("O %d xcache %d %d %s %d %s %d %s C %d" % (
+                            inst, lslot, len(sel_l), " ".join(map(str, sel_l)), len(T2), " ".join(map(str, T2)), len(op["args"]),
+                            " ".join(enc(a) for a in op["args"]), mslot))
+                        if recL["out"][0] == "OK" and os.path.exists(lpath):
+                            with open(lpath, "rb") as f:
+                                contentL = pickle.load(f)   # noqa: S301
+                            recL["file"] = {str(i): render(contentL["n%d" % i]) for i in range(n) if "n%d" % i in contentL}
+                            for j, u in zip((n, n + 1), d.input_uxns):
+                                if u.id in contentL:
+                                    recL["file"][str(j)] = render(contentL[u.id])
+                        records.append(recL)
+                    finally:
+                        try:
+                            os.remove(lpath)
+                        except OSError:
+                            pass
             finally:
                 if slot is None:
                     try:
